@@ -43,12 +43,27 @@ class Grp:
             rho = S.tw_rand(ty, rnd)
             A = S.NUM
             r2 = A.mul(ty, rho, rho)
+            # (the identity carrying the generator's x and y: a shortcut keyed on coordinates confuses it with the generator)
             return [('inf_canon', S.jac(ty, None)),
                     ('inf_xy', (r2, A.neg(ty, A.mul(ty, r2, rho)), S.tw_zero(ty))),
-                    ('inf_rand', (S.tw_rand(ty, rnd), S.tw_rand(ty, rnd), S.tw_zero(ty)))]
+                    ('inf_rand', (S.tw_rand(ty, rnd), S.tw_rand(ty, rnd), S.tw_zero(ty))),
+                    ('inf_genxy', (self.gen[0], self.gen[1], S.tw_zero(ty)))]
         lam = S.tw_rand(ty, rnd)
         m1 = S.NUM.neg(ty, S.tw_one(ty))
-        return [('aff', S.jac(ty, P)), ('jac', S.jac(ty, P, lam)), ('jac_m1', S.jac(ty, P, m1))]
+        # z whose Montgomery representation is the integer 1 (value R^-1): a limb-level "is one" test confuses it with z = 1
+        rinv = pow(S.RR, -1, Q)
+        lr = rinv if ty == 'Fq' else mk('Fq2', [rinv, 0])
+        return [('aff', S.jac(ty, P)), ('jac', S.jac(ty, P, lam)), ('jac_m1', S.jac(ty, P, m1)), ('jac_rinv', S.jac(ty, P, lr))]
+
+    def shared_xy(self, J, P):
+        """values that share X and Y with the representative J = (X, Y, Z) of P but denote OTHER points: (X, Y, -Z) is -P and
+        (X, Y, w Z) is phi(P) = (w x, y)  (w^3 = 1); a shortcut that compares coordinates instead of points confuses them"""
+        A = S.NUM
+        ty = self.ty
+        X, Y, Z = J
+        w = omega()
+        wz = A.mul(ty, Z, w if ty == 'Fq' else mk('Fq2', [w, 0]))
+        return [('sameXY_negZ', (X, Y, A.neg(ty, Z)), self.curve.neg(P)), ('sameXY_wZ', (X, Y, wz), self.scal(P, w))]
 
     def enc(self, J):
         return S.g_enc(self.ty, J)
@@ -121,6 +136,12 @@ def search(drv, seed, tier='quick'):
                             push('add_ref', gname + '::add_ref', a, ('two', C.add(P, Qp)))
                             push('add_assign', gname + '::add_assign', a, ('two', C.add(P, Qp)))
                             push('add', gname + '::add', [a[1], a[0]], C.add(Qp, P))
+                for lq, JQ, Qp in G.shared_xy(JP, P):
+                    a = [G.enc(JP), G.enc(JQ)]
+                    push('add', gname + '::add', a, C.add(P, Qp))
+                    push('sub', gname + '::sub', a, C.add(P, C.neg(Qp)))
+                    push('sub', gname + '::sub', [a[1], a[0]], C.add(Qp, C.neg(P)))
+                    push('eq', gname + '::eq', a, ('bool', P == Qp))
             # identity on the left
             for li, JI in G.reps(None, rnd):
                 for lp, JP in G.reps(P, rnd):
@@ -151,11 +172,15 @@ def search(drv, seed, tier='quick'):
         wreqs = []
         for P in pts[:3]:
             for lp, JP in G.reps(P, rnd)[:2] + G.reps(None, rnd)[:2]:
-                Pa = P if lp in ('aff', 'jac', 'jac_m1') else None
+                Pa = P if lp in ('aff', 'jac', 'jac_m1', 'jac_rinv') else None
                 for Qp in (pts[3 % len(pts)], P, C.neg(P), None):
                     JQ = G.reps(Qp, rnd)[1]
                     for k in wsc[:4] + [rnd.choice(wsc)]:
                         wreqs.append((Pa, Qp, k, [canon_jac(ty, JP), canon_jac(ty, JQ[1]), S.be(k)]))
+                if Pa is not None:
+                    for lq, JQ, Qp in G.shared_xy(JP, P):
+                        wreqs.append((Pa, Qp, 1, [canon_jac(ty, JP), canon_jac(ty, JQ), S.be(1)]))
+                        wreqs.append((Qp, Pa, 1, [canon_jac(ty, JQ), canon_jac(ty, JP), S.be(1)]))
             for k in wsc:
                 JP = G.reps(P, rnd)[1][1]
                 wreqs.append((P, P, k, [canon_jac(ty, JP), canon_jac(ty, JP), S.be(k)]))
